@@ -173,3 +173,26 @@ func VerifC14_O_commandless_guard() {
 	sym.Assert(cacheEntryExists(p, t.ChangeHash) == allPass, "C14.O5.commandless-target-cached-iff-success")
 	sym.Reach("C14.O.commandless")
 }
+
+// O6: with several declared outputs every one of them must exist - whichever is missing (first, middle, last)
+func VerifC14_O_every_declared_output() {
+	w := newWorld()
+	outs := []string{"o1.txt", "o2.txt", "o3.txt"}
+	b := &cmdBehaviour{writes: map[string]string{}}
+	all := true
+	for _, o := range outs {
+		if flag("produces_" + o) {
+			b.writes["p/"+o] = "x"
+		} else {
+			all = false
+		}
+	}
+	cmdModel["build-t"] = b
+	t := fileTarget("t", "build-t", outs...)
+	mode := modeOf(sym.Choice("mode", 2))
+	p := w.newProcess(true, mode, t)
+	_, err := p.run(w.ctx, t)
+	sym.Assert((err == nil) == all, "C14.O6.success-iff-every-declared-output-exists")
+	sym.Assert(cacheEntryExists(p, t.ChangeHash) == all, "C14.O6.cached-iff-every-declared-output-exists")
+	sym.Reach("C14.O.outputs")
+}
